@@ -13,7 +13,8 @@ import traceback
 from . import findings
 from .modelproc import Model, ModelError
 
-VERIF = '/verif'
+VERIF = os.environ.get('VERIF_ROOT', '/verif')
+REPO = os.environ.get('VERIF_REPO', '/repo')
 COQ = VERIF + '/coq'
 OUT = VERIF + '/out'
 KNOWN = VERIF + '/known_findings.txt'
@@ -267,7 +268,7 @@ def main(argv):
         tier = 'quick'
     t0 = time.time()
     os.makedirs(OUT, exist_ok=True)
-    sys.path.insert(0, '/repo')
+    sys.path.insert(0, REPO)
     mod = importlib.import_module('harness.%s' % prop.lower())
 
     if a.replay:
